@@ -96,8 +96,8 @@ def run_tree_property(pid, prop_file, tier, seed, want, extra=None):
         nexh = 0
         for tc in T.gen_exhaustive(tier):
             cases.append(tc); nexh += 1
-        nrand = 400 if tier == "quick" else 20000
-        maxN = 300 if tier == "quick" else 3000
+        nrand = 400 if tier == "quick" else 5000
+        maxN = 300 if tier == "quick" else 1200
         for tc in T.gen_random(rng, nrand, maxN):
             cases.append(tc)
         # the automatic block size (constructor default): B = -(hardware threads) in the case text
